@@ -126,6 +126,83 @@ func c18(c *core.Ctx) {
 				}
 				c.Check(!bad, key, ta.Pos(), "the failed assertion returns a non-nil error", "a value that is not a proto.Message does not lead to a non-nil error")
 			})
+			// strategy choice of the default cloner: a pair of protobuf messages always takes the type-checking
+			// message copy; the codec round trip (which checks nothing) is reachable only when one of them is not one
+			if core.PkgIs(fn, "inprocgrpc") && fn.Parent() == nil && fn.Name() == "Copy" && len(fn.Params) >= 2 {
+				var oks []ssa.Value
+				core.Instrs(fn, func(in ssa.Instruction) {
+					ta, ok := in.(*ssa.TypeAssert)
+					if !ok || !ta.CommaOk || !strings.HasSuffix(core.TypeStr(ta.AssertedType), "proto.Message") {
+						return
+					}
+					if _, isPar := core.Strip(ta.X).(*ssa.Parameter); !isPar {
+						return
+					}
+					for _, r := range core.Refs(ta) {
+						if ex, isEx := r.(*ssa.Extract); isEx && ex.Index == 1 {
+							oks = append(oks, ex)
+						}
+					}
+				})
+				if len(oks) >= 2 {
+					isOK := func(v ssa.Value) bool {
+						for _, o := range oks {
+							if o == v {
+								return true
+							}
+						}
+						return false
+					}
+					// routes: calls that take both message parameters
+					var routes []*ssa.Call
+					core.Instrs(fn, func(in ssa.Instruction) {
+						call, ok := in.(*ssa.Call)
+						if !ok {
+							return
+						}
+						np := 0
+						for _, a := range call.Call.Args {
+							if par, isPar := core.Strip(a).(*ssa.Parameter); isPar && core.TypeStr(par.Type()) == "interface{}" {
+								np++
+							}
+						}
+						if np >= 2 {
+							routes = append(routes, call)
+						}
+					})
+					bothTrue := core.Walk(core.Entry(fn), nil, func(b *ssa.BasicBlock, si int) bool {
+						iff, ok := b.Instrs[len(b.Instrs)-1].(*ssa.If)
+						if !ok {
+							return true
+						}
+						f := core.CondFact(iff.Cond, si == 0)
+						return !(f.Op == token.ILLEGAL && f.Neg && isOK(f.X))
+					})
+					nReach := 0
+					var second *ssa.Call
+					for _, r := range routes {
+						if bothTrue[r] {
+							nReach++
+							if nReach == 2 {
+								second = r
+							}
+						}
+					}
+					key := core.FuncName(fn) + ":message-pair-takes-the-checked-copy"
+					switch {
+					case len(routes) < 2:
+						c.Undecided(key, fn.Pos(), "expected a message copy and a codec route in the default cloner's Copy, found %d route(s)", len(routes))
+					case nReach == 1:
+						c.Ok(key, fn.Pos(), "with both values protobuf messages exactly one copy route is reachable (the type-checking message copy); the codec route needs a failed assertion")
+					default:
+						pos := fn.Pos()
+						if second != nil {
+							pos = second.Pos()
+						}
+						c.Fail(key, pos, "with both values protobuf messages %d copy routes are reachable: some pairs of messages (e.g. dynamic ones) by-pass the type-checking copy and go through the codec round trip, which copies between mismatched types without an error", nReach)
+					}
+				}
+			}
 			// reflective Set
 			for _, set := range core.CallsIn(fn, func(_ *ssa.Call, ci core.CallInfo) bool { return ci.Is("reflect.Value.Set") }) {
 				if zc, _, ok := core.CallResult(set.Call.Args[1]); ok && core.InfoOf(&zc.Call).Is("reflect.Zero") {
